@@ -123,7 +123,11 @@ func genScenario(r *Rng, maxMsgs, maxRcpts int) *SmtpScenario {
 func runAndCompare(c *Ctx, sc *SmtpScenario, branch string) *SmtpRun {
 	run, _ := RunScenario(sc)
 	if run.Panic != nil {
-		c.Violate("smtp-panic", fmt.Sprintf("the client panicked: %v", run.Panic), sc)
+		if str, ok := run.Panic.(string); ok && strings.HasPrefix(str, "the call did not return") {
+			c.Violate("c17-blocks-forever", str, sc)
+		} else {
+			c.Violate("smtp-panic", fmt.Sprintf("the client panicked: %v", run.Panic), sc)
+		}
 		return run
 	}
 	if run.Stage == "config" {
